@@ -487,6 +487,9 @@ def rule_cache_fields(ctx, rule='C12.FIELDS'):
             continue
         for s_ in f.own_nodes():
             tg = s_.targets if isinstance(s_, ast.Assign) else [s_.target] if isinstance(s_, (ast.AugAssign, ast.AnnAssign)) else []
+            if isinstance(s_, ast.AugAssign) and isinstance(s_.value, ast.Constant) and isinstance(s_.value.value, (int, float)) \
+                    and f.name != 'truncate':
+                continue            # a statistics counter remembers nothing about the source
             for t in tg:
                 for e in (t.elts if isinstance(t, ast.Tuple) else [t]):
                     b = e
